@@ -455,4 +455,217 @@ theorem numHeader_spec (str : List Nat) (base0 : Nat) (neg : Bool) (b : Nat) (s2
       obtain ⟨rfl, rfl, rfl⟩ := h
       exact ⟨by first | rfl | trivial, by omega, by omega⟩
 
+/-! ### assembly: what the scanner hands to `convert`, against `denote` -/
+
+/-- side condition on the clamp constants: either the code drops over-long exponent digits (`eeSat = 0`, the pinned
+    tree) or it saturates to a value that dominates every mantissa exponent and cannot overflow `int32_t` -/
+def SatOK : Prop := eeSat = 0 ∨ (eeLimit ≤ eeSat ∧ eeSat + 4 * lenLimit < 2 ^ 31)
+
+theorem fracFrom_le (sp : Bool) (l : List Nat) : fracFrom sp l ≤ l.length := by
+  cases sp
+  · simp only [fracFrom, fracChars, mantChars]
+    exact le_trans (List.length_filter_le _ _) (List.dropWhile_sublist _).length_le
+  · simp only [fracFrom, mantChars]
+    exact List.length_filter_le _ _
+
+theorem tw_len (b : Nat) (s : List Nat) : (tw b s).length ≤ s.length := by
+  unfold tw
+  exact (List.takeWhile_sublist _).length_le
+
+theorem denoteBody_nil (neg : Bool) (b : Nat) (s : List Nat) (h : dw b s = []) :
+    denoteBody neg b s = ⟨neg, ofDigits b (mantChars (tw b s)), b, -(fracFrom false (tw b s) : Int)⟩ := by
+  unfold dw at h
+  unfold denoteBody
+  simp only
+  rw [h]
+  rfl
+
+theorem denoteBody_cons (neg : Bool) (b : Nat) (s : List Nat) (mk : Nat) (es : List Nat) (h : dw b s = mk :: es) :
+    denoteBody neg b s =
+      (if hexpOf b (mk :: es) then
+        ⟨neg, ofDigits b (mantChars (tw b s)), 2,
+          (if (splitSign es).1 then -(ofDigits 10 (splitSign es).2 : Int) else (ofDigits 10 (splitSign es).2 : Int))
+            - 4 * (fracFrom false (tw b s) : Int)⟩
+       else
+        ⟨neg, ofDigits b (mantChars (tw b s)), b,
+          (if (splitSign es).1 then -(ofDigits b (splitSign es).2 : Int) else (ofDigits b (splitSign es).2 : Int))
+            - (fracFrom false (tw b s) : Int)⟩) := by
+  unfold dw at h
+  unfold denoteBody
+  simp only
+  rw [h]
+  simp only [hexpOf]
+  split_ifs <;> rfl
+
+/-- the relation between what the scanner hands to `convert` (`p`) and the denoted value (`l`):
+    same sign, radix and mantissa; the exponents are `±Y − cF` (scanner) and `±X − cF` (denoted) with the SAME sign and
+    fraction shift `cF ≤ K`, mantissa below `b^K`, `K` at most 4·length; `Y = X` unless the exponent clamp was reached, in
+    which case both are huge (`X ≥ K + 1100`; `Y ≥ eeLimit`, equal to `eeSat` when the code saturates). -/
+def ExpOK (len : Nat) (p : Parsed) (l : Lit) : Prop :=
+  ∃ (K cF Y X : Nat) (eneg : Bool),
+    p.ex = (if eneg then -(Y : Int) else (Y : Int)) - cF ∧ l.E = (if eneg then -(X : Int) else (X : Int)) - cF ∧
+    cF ≤ K ∧ K ≤ 4 * len ∧ l.M < l.b ^ K ∧ Y + K < 2 ^ 31 ∧
+    (Y = X ∨ ((2 ≤ p.base → K + 1100 ≤ X) ∧ eeLimit ≤ Y ∧ (eeSat = 0 ∨ Y = eeSat)))
+
+theorem exp_bound_aux (eb ee len : Nat) (hb36 : eb ≤ 36) (hlen : len ≤ lenLimit)
+    (hB : ee ≤ max (eb * eeLimit) eeSat) (hsat : SatOK) :
+    ee + len < 2 ^ 31 ∧ (eb = 10 → ee + 4 * len < 2 ^ 31) := by
+  have hL1 : lenLimit = 53687091 := rfl
+  have hL2 : eeLimit = 53687091 := rfl
+  have p31 : (2 : Nat) ^ 31 = 2147483648 := by norm_num
+  rw [hL1] at hlen
+  rw [p31]
+  rcases le_max_iff.mp hB with h | h
+  · rw [hL2] at h
+    have h36 : eb * 53687091 ≤ 36 * 53687091 := Nat.mul_le_mul_right _ hb36
+    constructor
+    · omega
+    · intro h10; subst h10; omega
+  · rcases hsat with h0 | ⟨_, h2⟩
+    · rw [h0] at h; constructor
+      · omega
+      · intro _; omega
+    · rw [hL1, p31] at h2
+      constructor
+      · omega
+      · intro _; omega
+
+theorem pow16 (n : Nat) : (16 : Nat) ^ n = 2 ^ (4 * n) := by
+  rw [show (16 : Nat) = 2 ^ 4 by norm_num, ← pow_mul]
+
+theorem parseBody_spec (neg : Bool) (b : Nat) (s2 : List Nat) (p : Parsed) (hb1 : 1 ≤ b) (hb36 : b ≤ 36)
+    (hlen : s2.length ≤ lenLimit) (hsat : SatOK) (h : parseBody neg b s2 = some p) :
+    p.neg = (denoteBody neg b s2).neg ∧ p.base = (denoteBody neg b s2).b ∧ p.mant.val = (denoteBody neg b s2).M ∧
+    MantInv p.mant ∧ 1 ≤ p.base ∧ p.base ≤ 36 ∧ ExpOK s2.length p (denoteBody neg b s2) := by
+  have hL1 : lenLimit = 53687091 := rfl
+  have hL2 : eeLimit = 53687091 := rfl
+  unfold parseBody at h
+  simp only at h
+  split at h
+  · simp at h
+  rename_i s3 st1 hz
+  have Z := skipZeros_spec b s2 _ s3 st1 hz
+  have hbase : st1.base = b := Z.base
+  have hebase : st1.expBase = b := Z.ebase
+  have hmant0 : st1.mant.val = 0 := by rw [Z.mant]; rfl
+  have hZex : (0 : Int) - (fracFrom false (tw b s2) : Int) = st1.ex - (fracFrom st1.seenpoint (tw b s3) : Int) := Z.ex
+  have hfound1 : st1.foundexp = false := Z.found
+  split at h
+  · simp at h
+  rename_i s4 st2 hd
+  have hi1 : StInv st1 := ⟨by rw [Z.mant]; exact zero_inv, by rw [hbase]; exact hb1, by rw [hbase]; exact hb36⟩
+  have D := scanDigits_spec s3 st1 s4 st2 hd hi1
+  rw [hbase] at D
+  have hrest : s4 = dw b s2 := D.rest.trans Z.rest.symm
+  have hM : st2.mant.val = ofDigits b (mantChars (tw b s2)) := by
+    rw [D.mval, hmant0]; exact Z.mval.symm
+  have hbound : st2.mant.val < b ^ s2.length := by
+    have h1 := D.bound
+    rw [hmant0] at h1
+    have h2 : b ^ s3.length ≤ b ^ s2.length := Nat.pow_le_pow_right hb1 Z.len
+    omega
+  have hFle : fracFrom false (tw b s2) ≤ s2.length := le_trans (fracFrom_le _ _) (tw_len _ _)
+  have hDex := D.ex
+  have hDfound := D.found
+  rw [hfound1] at hDfound
+  generalize hF : fracFrom false (tw b s2) = F at *
+  split at h
+  · simp at h
+  split at h
+  · -- no exponent part
+    simp at h
+    subst h
+    have hdw : dw b s2 = [] := hrest.symm
+    rw [denoteBody_nil neg b s2 hdw, hF]
+    simp only [hexpOf, Bool.false_eq_true, if_false] at hDex
+    refine ⟨rfl, hDex.1, hM, D.inv, by rw [hDex.1]; exact hb1, by rw [hDex.1]; exact hb36, ?_⟩
+    refine ⟨s2.length, F, 0, 0, false, ?_, ?_, hFle, by omega, ?_, by omega, Or.inl rfl⟩
+    · simp only [Bool.false_eq_true, if_false]; rw [hDex.2.2]; omega
+    · simp
+    · simp only; rw [← hM]; exact hbound
+  · rename_i mk s5
+    have hdw : dw b s2 = mk :: s5 := hrest.symm
+    have hfe : st2.foundexp = true := by simpa using hDfound
+    split at h
+    · rename_i hnf; rw [hfe] at hnf; simp at hnf
+    split at h
+    · simp at h
+    rename_i exv hpe
+    simp at h
+    subst h
+    rw [parseExponent_eq] at hpe
+    by_cases hs5 : s5 = []
+    · rw [if_pos hs5] at hpe; simp at hpe
+    rw [if_neg hs5] at hpe
+    generalize hsk : skipExpZeros (splitSign s5).2 false = sk at hpe
+    obtain ⟨s7, sd⟩ := sk
+    simp only at hpe
+    cases hsc : scanExpDigits st2.expBase s7 0 sd with
+    | none => rw [hsc] at hpe; simp at hpe
+    | some q =>
+      obtain ⟨ee, sd2⟩ := q
+      rw [hsc] at hpe
+      simp only at hpe
+      by_cases hsd2 : (!sd2) = true
+      · rw [if_pos hsd2] at hpe; simp at hpe
+      rw [if_neg hsd2] at hpe
+      simp at hpe
+      rw [denoteBody_cons neg b s2 mk s5 hdw, hF]
+      have hs5len : (splitSign s5).2.length ≤ s5.length := splitSign_len s5
+      by_cases hhx : hexpOf b (mk :: s5) = true
+      · -- hex float: radix 2, exponent digits decimal
+        rw [if_pos hhx] at hDex ⊢
+        obtain ⟨hb2, heb, hex⟩ := hDex
+        have hb16 : b = 16 := by
+          simp only [hexpOf, Bool.and_eq_true, beq_iff_eq] at hhx; exact hhx.2
+        obtain ⟨hz1, _⟩ := skipExpZeros_spec 10 _ _ _ _ hsk
+        rw [heb] at hsc
+        have hsat' : eeSat = 0 ∨ eeLimit ≤ eeSat := by rcases hsat with h | h; exact Or.inl h; exact Or.inr h.1
+        obtain ⟨hR, hB⟩ := scanExpDigits_spec 10 (by decide) hsat' s7 0 0 sd ee sd2 hsc (Or.inl rfl) (Nat.zero_le _)
+        rw [← hz1] at hR
+        refine ⟨rfl, hb2, hM, D.inv, by rw [hb2]; exact (by decide : 1 ≤ 2), by rw [hb2]; exact (by decide : 2 ≤ 36), ?_⟩
+        refine ⟨4 * s2.length, 4 * F, ee, ofDigits 10 (splitSign s5).2, (splitSign s5).1, ?_, ?_, by omega, le_refl _, ?_, ?_, ?_⟩
+        · rw [← hpe, hex, ← hZex]
+          cases (splitSign s5).1 <;> simp <;> push_cast <;> ring
+        · simp only; push_cast; ring
+        · simp only
+          rw [← hM, ← pow16, ← hb16]; exact hbound
+        · exact (exp_bound_aux 10 ee s2.length (by decide) hlen hB hsat).2 rfl
+        · rcases hR with hR | ⟨h1, h2, h3⟩
+          · left; exact hR
+          · right
+            refine ⟨fun _ => ?_, h1, h2⟩
+            unfold ofDigits
+            rw [hL2] at h3; rw [hL1] at hlen
+            clear hpe hex hZex hB
+            omega
+      · -- ordinary exponent in the literal's radix
+        rw [if_neg hhx] at hDex ⊢
+        obtain ⟨hb2, heb, hex⟩ := hDex
+        rw [hebase] at heb
+        obtain ⟨hz1, _⟩ := skipExpZeros_spec b _ _ _ _ hsk
+        rw [heb] at hsc
+        have hsat' : eeSat = 0 ∨ eeLimit ≤ eeSat := by rcases hsat with h | h; exact Or.inl h; exact Or.inr h.1
+        obtain ⟨hR, hB⟩ := scanExpDigits_spec b hb1 hsat' s7 0 0 sd ee sd2 hsc (Or.inl rfl) (Nat.zero_le _)
+        rw [← hz1] at hR
+        have hbl : b * eeLimit ≤ 36 * eeLimit := Nat.mul_le_mul_right _ hb36
+        refine ⟨rfl, hb2, hM, D.inv, by rw [hb2]; exact hb1, by rw [hb2]; exact hb36, ?_⟩
+        refine ⟨s2.length, F, ee, ofDigits b (splitSign s5).2, (splitSign s5).1, ?_, ?_, hFle, by omega, ?_, ?_, ?_⟩
+        · rw [← hpe, hex, ← hZex]
+          cases (splitSign s5).1 <;> simp <;> ring
+        · simp only
+        · simp only
+          rw [← hM]; exact hbound
+        · exact (exp_bound_aux b ee s2.length hb36 hlen hB hsat).1
+        · rcases hR with hR | ⟨h1, h2, h3⟩
+          · left; exact hR
+          · right
+            refine ⟨fun hp2 => ?_, h1, h2⟩
+            rw [hb2] at hp2
+            have h4 : 2 * eeLimit ≤ b * eeLimit := Nat.mul_le_mul_right _ hp2
+            unfold ofDigits
+            rw [hL2] at h3 h4; rw [hL1] at hlen
+            clear hpe hex hZex hB hbl
+            omega
+
 end JanetModel.Strtod
